@@ -15,7 +15,10 @@ fn budget(t: Tier) -> u64 {
 }
 
 pub fn random_forgery(rng: &mut Rng, n_prev: u32) -> Forgery {
-    match rng.below(23) {
+    match rng.below(27) {
+        23 => Forgery::ResignedRootPrefixKept(*rng.pick(&[1u32, 4, 8, 16, 31, 32, 63])),
+        24 => Forgery::ResignedFillRoot(*rng.pick(&[0u8, 0xff, 0x5a])),
+        25 | 26 => Forgery::Fill { region: rng.pick(&["SIG", "CERT.SIG", "DELE.PUBK", "SREP.ROOT", "PATH", "NONC", "INDX"]).to_string(), byte: *rng.pick(&[0u8, 0, 0xff]) },
         0..=4 => Forgery::FlipBit { region: REGIONS[rng.below(REGIONS.len() as u64) as usize].to_string(), bit: rng.below(512) as u32 },
         5 | 6 => Forgery::Rewrite { region: REGIONS[rng.below(REGIONS.len() as u64) as usize].to_string(), seed: rng.next_u64() },
         7 => Forgery::OtherLongTermKey(rng.next_u64()),
